@@ -1652,3 +1652,119 @@ M('C20','worker-bookkeeping-deferred-wrong-order','app/daemon/daemon.go','''		ba
 
 		backgroundWorker(worker.ctx)
 ''','worker/done-cleanup-order')
+# ---------------- rules that had no firing mutant or seeded change (audit of evidence rule ids)
+M('C07','next-returns-incremented','kvstore/sequence.go','''	val := seq.next
+	seq.next++
+
+	return val, nil''','''	seq.next++
+	val := seq.next
+
+	return val, nil''','seq/next-')
+M('C07','next-does-not-advance','kvstore/sequence.go','''	val := seq.next
+	seq.next++
+
+	return val, nil''','''	val := seq.next
+
+	return val, nil''','seq/next-increment')
+M('C08','enqueue-send-before-running-check','kvstore/batch_writer.go','''	// abort if the BatchWriter has been stopped
+	if !bw.running.Load() {
+		bw.scheduledCount.Add(-1)
+
+		return
+	}
+
+	// abort if the very same object has been queued already
+	if object.BatchWriteScheduled() {
+		bw.scheduledCount.Add(-1)
+
+		return
+	}
+''','''	// abort if the very same object has been queued already
+	if object.BatchWriteScheduled() {
+		bw.scheduledCount.Add(-1)
+
+		return
+	}
+''','publish/licensed-by-running')
+M('C08','writer-returns-without-done','kvstore/batch_writer.go','''func (bw *BatchedWriter) runBatchWriter() {
+	for bw.running.Load() || bw.scheduledCount.Load() != 0 {''','''func (bw *BatchedWriter) runBatchWriter() {
+	if bw.opts.batchSize == 0 {
+		return
+	}
+	for bw.running.Load() || bw.scheduledCount.Load() != 0 {''','wg/done-on-exit')
+M('C14','evict-forgets-to-advance','ds/reactive/eviction_state_impl.go','''	e.lastEvictedSlot = &slot
+
+	return eventsToTrigger''','''	if len(eventsToTrigger) != 0 {
+		e.lastEvictedSlot = &slot
+	}
+
+	return eventsToTrigger''','evict/advance')
+M('C18','worker-loop-stops-on-first-task','runtime/timed/executor.go','''			for currentEntry := t.queue.Poll(true); currentEntry != nil; currentEntry = t.queue.Poll(true) {
+				currentEntry()
+			}
+''','''			if currentEntry := t.queue.Poll(true); currentEntry != nil {
+				currentEntry()
+			}
+''','executor/worker-loop')
+M('C18','worker-done-missing-on-exit','runtime/timed/executor.go','''				currentEntry()
+			}
+
+			t.shutdownWG.Done()''','''				currentEntry()
+			}
+
+			if t.workerCount > 1 {
+				t.shutdownWG.Done()
+			}''','executor/worker-loop')
+M('C18','executor-shutdown-never-waits','runtime/timed/executor.go','''	if shutdownFlags.HasBits(DontWaitForShutdown) {
+		return
+	}
+
+	t.shutdownWG.Wait()''','''	if shutdownFlags.HasBits(DontWaitForShutdown) || shutdownFlags.HasBits(CancelPendingElements) {
+		return
+	}
+
+	t.shutdownWG.Wait()''','executor/shutdown-waits')
+M('C18','taskexecutor-does-not-record','runtime/timed/taskexecutor.go','''	if scheduledTask != nil {
+		t.queuedElements.Set(identifier, scheduledTask)
+	}''','''	if scheduledTask != nil && !t.queuedElements.Has(identifier) {
+		t.queuedElements.Set(identifier, scheduledTask)
+	}''','taskexec/records-pending')
+M('C18','taskexecutor-wrapper-skips-callback','runtime/timed/taskexecutor.go','''		callback()
+''','''		if callback != nil && executionTime.IsZero() {
+			callback()
+		}
+''','taskexec/wrapper-runs-callback')
+M('C18','cancel-closes-unconditionally','runtime/timed/queue.go','''	select {
+	case <-timedQueueElement.cancel:
+		// channel is already closed
+	default:
+		// close the cancel channel to notify subscribers
+		close(timedQueueElement.cancel)
+	}''','''	// close the cancel channel to notify subscribers
+	close(timedQueueElement.cancel)''','cancel/close-once-under-lock')
+M('C12','randomkey-draws-from-empty','ds/randommap/random_map.go','''	if len(r.keys) == 0 {
+		return defaultValue, false
+	}
+
+	return r.randomKey(), true''','''	if r.rawMap == nil {
+		return defaultValue, false
+	}
+
+	return r.randomKey(), true''','pair/randommap')
+M('C20','stop-flag-set-without-lock','app/daemon/daemon.go','''	d.lock.Lock()
+	d.stopped.Store(true)
+	d.lock.Unlock()
+''','''	d.stopped.Store(true)
+''','reg/atomic-with-shutdown')
+M('C20','stopworkers-walks-live-state','app/daemon/daemon.go','''	workers, shutdownOrderWorker := d.getWorkersAndShutdownOrder()
+
+	// stop all the workers''','''	workers, shutdownOrderWorker := d.workers, d.shutdownOrderWorker
+
+	// stop all the workers''','stop/uses-snapshot')
+M('C20','waitgroup-created-after-store','app/daemon/daemon.go','''	if _, ok := d.wgPerSameShutdownOrder[shutdownOrder]; !ok {
+		d.wgPerSameShutdownOrder[shutdownOrder] = &sync.WaitGroup{}
+	}
+''','''	if _, ok := d.wgPerSameShutdownOrder[shutdownOrder]; !ok && shutdownOrder != 0 {
+		d.wgPerSameShutdownOrder[shutdownOrder] = &sync.WaitGroup{}
+	}
+''','order/waitgroup-exists')
